@@ -685,6 +685,9 @@ func (td *typeDecls) declare(name string, o *VOpaque, depth int) {
 				tag := ""
 				if i == 0 {
 					tag = " " + strconv.Quote(structTag)
+					if o.attrs["#mangledOf"] != nil {
+						tag = " " + strconv.Quote(mangledTag)
+					}
 				}
 				fs = append(fs, fname+" "+ftype+tag)
 			}
@@ -707,6 +710,15 @@ func (td *typeDecls) declare(name string, o *VOpaque, depth int) {
 			methodsOK = false
 		case td.asIface[o] != "":
 			td.decls = append(td.decls, fmt.Sprintf("type %s interface{ %s() }", name, td.asIface[o]))
+			methodsOK = false
+		case o.attrs["#mangledOf"] != nil:
+			// the same type with the tag fmt produced (interp.go mangledType): a struct type literal
+			orig, _ := o.attrs["#mangledOf"].(*VOpaque)
+			td.decls = append(td.decls, fmt.Sprintf("type %s = struct{ P%s int %s }", name, strings.TrimLeft(td.nameFor(orig, depth+1), "_"), strconv.Quote(mangledTag)))
+			methodsOK = false
+		case o.attrs["#percentTag"] != nil && len(td.asImpl[o]) == 0:
+			// its text was part of a format and nothing is known about it: it may be a struct type literal whose tag holds a percent sign
+			td.decls = append(td.decls, fmt.Sprintf("type %s = struct{ P%s int %s }", name, strings.TrimLeft(name, "_"), strconv.Quote(structTag)))
 			methodsOK = false
 		default:
 			emit(fmt.Sprintf("struct{ _%s int }", strings.TrimLeft(name, "_")))
